@@ -101,6 +101,7 @@ type Sched struct {
 	finished bool
 	armSpan  int
 	armStep  int // step at which the last urgent task was armed (-1 = none)
+	stubs    []*afStub
 	fp       func() uint64
 }
 
@@ -215,6 +216,12 @@ func Run(opts Options, main func()) Result {
 		}
 		t.gate.wake()
 		<-t.exited
+	}
+	for _, st := range s.stubs { // AfterFunc callbacks whose timer never fired
+		if !st.started {
+			cancelStub(st)
+			<-st.exited
+		}
 	}
 	for _, t := range s.tasks {
 		if t.stack != "" {
